@@ -30,14 +30,36 @@ def run(prog: Program, rep: Report, tier: str) -> None:
     pointer_width(rep, prog)
 
 
-def _zero_names(f: FuncInfo) -> Set[str]:
-    """Locals assigned from <semiring>.from_int(0)."""
+def _is_zero_call(f: FuncInfo, v: ast.AST, depth: int = 0) -> bool:
+    if not isinstance(v, ast.Call):
+        return False
+    if callee_last(v) == 'from_int' and v.args and isinstance(v.args[0], ast.Constant) and v.args[0].value == 0:
+        return True
+    # a helper of the same module all of whose returns are <semiring>.from_int(0) (or names bound to it)
+    if isinstance(v.func, ast.Name) and depth < 2:
+        g = f.module.functions.get(v.func.id)
+        if g is not None and not g.is_lambda:
+            zn = _zero_names(g, depth + 1)
+            rets = [r.value for r in own_nodes(g.node) if isinstance(r, ast.Return) and r.value is not None]
+            return bool(rets) and all(_is_zero_call(g, r, depth + 1) or (isinstance(r, ast.Name) and r.id in zn) for r in rets)
+    return False
+
+
+def _zero_names(f: FuncInfo, depth: int = 0) -> Set[str]:
+    """Locals bound to <semiring>.from_int(0), directly or through a helper function returning it."""
     out = set()
     for n in own_nodes(f.node):
-        if isinstance(n, ast.Assign) and isinstance(n.value, ast.Call) and callee_last(n.value) == 'from_int' and n.value.args \
-                and isinstance(n.value.args[0], ast.Constant) and n.value.args[0].value == 0:
-            for t in n.targets:
-                if isinstance(t, ast.Name): out.add(t.id)
+        if isinstance(n, ast.Assign):
+            vals = [n.value]
+            tg = n.targets[-1]
+            if isinstance(n.value, ast.Assign):
+                pass
+            if _is_zero_call(f, n.value, depth):
+                for t in n.targets:
+                    if isinstance(t, ast.Name): out.add(t.id)
+                    if isinstance(t, ast.Subscript):
+                        pass
+            # chained `zero = cache[key] = semiring.from_int(0)`
     return out
 
 
